@@ -141,6 +141,14 @@ Small(rel) == rel <= Tol8
 (* a constant factor (or by the order of summation) stop within a few xtol of each other: *)
 (* 5e-4 absolute + 1e-4 relative (measured spread <= 1.9e-4).                             *)
 DeltaClose(dd, dq) == dd <= 500 + (dq \div 10000)
+(* ... and then alpha and beta (functions of delta) agree to 1e-3 relative.  Without this the   *)
+(* absolute tolerance on delta hid a beta of 1069 against 68411 at delta 2e-4 against 3e-6.     *)
+AbClose(ab) == ab <= 1000000000
+(* object histories of a free delta: the object holds a tiny delta (earlier fit to a sample whose  *)
+(* optimum is at delta -> 0, or constructed so).  Where the fresh fit found an interior delta      *)
+(* (0.05 .. 50) the fit of the object with a past must be a local minimiser as well and agree.     *)
+FreeHistories == {"after_small_delta_fit", "constructed_small_delta"}
+Interior(dq) == 50000 <= dq /\ dq <= 50000000
 (* local minimum: E(delta) <= E(delta +- h) with h = 1e-3*delta + 5e-4 (>= 2x the          *)
 (* optimiser's uncertainty); em / ep = (E(delta -+ h) - E(delta)) / E(delta) x 10^12,      *)
 (* 1e-9 slack for the round-off of E.                                                      *)
